@@ -152,3 +152,15 @@ prop('C09', units=['ls'], level='proof',
                   'std HashMap::into_iter / IntoIter::next yield pairs of the map; Vec::into_iter().map(f).collect() applies f to every element (R14 helpers, assumed)',
                   'the RwLock around the Vfs is never poisoned; sending the publishDiagnostics notification is outside the unit',
                   'to_proto::* conversions are external_body in this unit; position/range/location arithmetic is proved in unit LP (C10)'])
+
+prop('C12', units=['ls'], level='proof', relevant=r'^unit::vfs::',
+     explanation=('Unit LS, file vfs.rs (partial): Verus proves on the real text that Vfs::set_open_document records exactly the editor\'s text as the document\'s open buffer '
+                  '(open_docs == old.insert(path, text): a later change replaces an earlier one) and that <Vfs as FileSystem>::read_content - the function through which the analysis reads every '
+                  'included file - returns the open buffer when the document has one and what fs::read_to_string yields otherwise. Because ide::file_system::resolve_include_file stores in the '
+                  'database exactly what FileSystem::read_content returns, re-analysing never replaces an open document\'s text by its on-disk version. NOT decided by a contract: that '
+                  'Server::set_file_content calls set_open_document for every didOpen/didChange (the Vfs sits behind an RwLock write guard, whose DerefMut Verus does not relate across calls); '
+                  'the thorough tier replays the recorded session (findings/C12_witness.rs) against the real server for that. Documents are never un-opened (didClose is ignored by the server).'),
+     assumptions=['Verus/Z3/rustc sound; extraction faithful (round-trip audit)',
+                  'std::fs::read_to_string is a function of the path (disk_read), HashMap<FilePath, String> obeys vstd\'s key model (FilePath: derived Eq/Hash over PathBuf)',
+                  'ide::file_system::resolve_include_file stores what FileSystem::read_content returns (file_system.rs: `fs.read_content(&candidate)` then `db.set_file_content(file_id, ..)`; not re-verified here)',
+                  'the call of Vfs::set_open_document in Server::set_file_content is NOT covered by a contract (see explanation); Server::set_file_content itself is verified for absence of panics only, under "the lock is not poisoned"'])
